@@ -3,6 +3,7 @@
 package v2
 
 import (
+	"bytes"
 	"encoding/json"
 	"fmt"
 	"net/http"
@@ -154,6 +155,7 @@ var c12Alphabet = []string{
 	"expire A", "expire B", "expire unknown id", "GC",
 	"create matcher set matching the empty string (invalid)", "create bad regex (invalid)",
 	"advance 1", "advance 2", "advance 3 (retention)",
+	"restart from a snapshot",
 }
 
 func msRound(t time.Time) time.Time { return t.Truncate(time.Millisecond) }
@@ -362,6 +364,17 @@ func (y *c12Sys) apply(x int) (ok bool, viol, desc string) {
 	case 19, 20, 21:
 		time.Sleep(time.Duration(x-18) * c12U)
 		return true, "", ""
+	case 22:
+		// the process restarts: what was stored is what the snapshot holds, ended silences included
+		var buf bytes.Buffer
+		if _, err := y.sils.Snapshot(&buf); err != nil {
+			return true, "snapshot-error", err.Error()
+		}
+		ns, err := silence.New(silence.Options{SnapshotReader: &buf, Retention: c12Ret, Metrics: prometheus.NewRegistry()})
+		if err != nil {
+			return true, "restart-on-own-snapshot-fails", err.Error()
+		}
+		y.sils, y.api.silences = ns, ns
 	}
 	if viol == "" {
 		time.Sleep(time.Millisecond)
